@@ -100,7 +100,9 @@ func (i *interpreter) LoadBuiltins(filename string, contents []byte, statements 
 	case "config_rules.build_defs":
 		defer setNativeCode(s, "select", selectFunc)
 	}
-	defer i.scope.SetAll(s.Freeze(), true)
+	// N.B. This must be a closure: the arguments of a deferred call are evaluated at the defer statement,
+	//      which would freeze this scope while it is still empty and leave everything it defines mutable.
+	defer func() { i.scope.SetAll(s.Freeze(), true) }()
 	if statements != nil {
 		_, err := i.interpretStatements(s, statements)
 		return err
